@@ -132,6 +132,71 @@ def rewrite(text):
     return '\n'.join(res) + '\n'
 
 
+def _is_num(x):
+    if isinstance(x, str):
+        return re.fullmatch(r'-?\d+(\.\d+)?', x) is not None
+    if isinstance(x, list) and len(x) == 2 and x[0] == '-' and _is_num(x[1]):
+        return True
+    if isinstance(x, list) and len(x) == 3 and x[0] == '/' and _is_num(x[1]) and _is_num(x[2]):
+        return True
+    return False
+
+
+def _flat_factors(x, acc):
+    if isinstance(x, list) and x and x[0] == '*':
+        for a in x[1:]:
+            _flat_factors(a, acc)
+    else:
+        acc.append(x)
+
+
+def _key(x):
+    buf = []
+    dump(x, buf)
+    return ''.join(buf)
+
+
+def abstract_products(x):
+    """replace every product of two or more non-numeral factors by an uninterpreted function applied to the factors in a
+    canonical (sorted, right-nested) order; numeral coefficients stay.  An abstraction: every model of the original formula
+    is a model of the result (interpret mulR as multiplication), so `unsat` carries over.  May only answer unsat."""
+    if isinstance(x, str):
+        return x
+    if x and x[0] == '*':
+        fs = []
+        _flat_factors(x, fs)
+        fs = [abstract_products(f) for f in fs]
+        nums = [f for f in fs if _is_num(f)]
+        syms = sorted([f for f in fs if not _is_num(f)], key=_key)
+        if len(syms) <= 1:
+            return ['*'] + nums + syms if len(nums) + len(syms) > 1 else (nums + syms)[0]
+        t = syms[-1]
+        for f in reversed(syms[:-1]):
+            t = ['mulR', f, t]
+        return ['*'] + nums + [t] if nums else t
+    return [abstract_products(a) for a in x]
+
+
+def rewrite_uf(text):
+    """Int reading of the machine ints + products as an uninterpreted function"""
+    r = rewrite(text)
+    if r is None:
+        return None
+    try:
+        forms = parse(r)
+    except ValueError:
+        return None
+    out = ['(declare-fun mulR (Real Real) Real)']
+    try:
+        for f in forms:
+            buf = []
+            dump(abstract_products(f), buf)
+            out.append(''.join(buf))
+    except RecursionError:
+        return None
+    return '\n'.join(out) + '\n'
+
+
 if __name__ == '__main__':
     sys.setrecursionlimit(100000)
     r = rewrite(open(sys.argv[1]).read())
